@@ -349,6 +349,59 @@ def replay_details(exe, failures):
     return {"status": "not_reproduced" if ran else "unavailable", "summary": "native results agree" if ran else "no scenario could be made concrete", "attempts": tried}
 
 
+KIND_EXPR = {"Int": "2", "UInt": "2u", "Float": "2.0", "Bool": "true", "String": "'UTC'", "Bytes": "b'ab'", "List": "[1, 2]", "Map": "{'a': 1}", "Null": "null",
+             "TimeStamp": "timestamp('2024-01-02T03:04:05Z')", "Duration": "duration('1h')"}
+
+
+def cel_name(dispatcher):
+    m = dispatcher.replace("::methods::dispatch", "").replace("_methods::dispatch", "").split("::")[-1]
+    if m.endswith("_type"):
+        return m[:-5]
+    special = {"uom": "uomConvert", "split_whitespace": "splitWhiteSpace"}
+    if m in special:
+        return special[m]
+    parts = m.split("_")
+    return parts[0] + "".join(p.capitalize() for p in parts[1:])
+
+
+def replay_dispatch(exe, failures):
+    tried, batch, seen = [], [], set()
+    for f in failures:
+        sc = f.get("scenario")
+        if not sc or sc.get("kind") != "dispatch" or sc.get("expected") in (None, "unknown"):
+            continue
+        if sc["this"] not in KIND_EXPR or any(a not in KIND_EXPR for a in sc["args"]):
+            continue
+        name = cel_name(sc["dispatcher"])
+        args = ", ".join(KIND_EXPR[a] for a in sc["args"])
+        src = f"{name}({args})" if sc["this"] == "Null" else f"({KIND_EXPR[sc['this']]}).{name}({args})"
+        if src in seen:
+            continue
+        seen.add(src)
+        batch.append((f["label"], src, sc["expected"]))
+    if not batch:
+        return {"status": "unavailable", "summary": "no scenario could be made concrete", "attempts": tried}
+    out, why = run(exe, "eval", [{"programs": [["main", b[1]]], "run": ["main"], "params": {}} for b in batch])
+    if out is None:
+        return {"status": "unavailable", "summary": why}
+    first = None
+    for (label, src, exp), o in zip(batch, out):
+        got = (o.get("results") or [{}])[0]
+        if exp == "rejected":
+            bad = "ok" in got or "panic" in got
+        else:
+            bad = "panic" in got or got.get("err") == "Argument"
+        rec = {"label": label, "source": src, "expected": exp, "native": got}
+        if bad:
+            rec["reproduced"] = True
+            first = first or rec
+        if bad or len(tried) < 30:
+            tried.append(rec)
+    if first:
+        return {"status": "reproduced", "summary": f"`{first['source']}` gave {first['native']}; by the overloads' signatures the call is {first['expected']}", "attempts": tried, "concrete_instances_run": len(batch)}
+    return {"status": "not_reproduced", "summary": f"none of {len(batch)} concrete calls disagreed natively", "attempts": tried, "concrete_instances_run": len(batch)}
+
+
 def replay_value(exe, failures):
     tried = []
     for f in failures:
@@ -569,6 +622,8 @@ def main():
             r = r2 if r2["status"] == "reproduced" else r
     elif any((f.get("scenario") or {}).get("kind") == "vm" for f in fails):
         r = replay_vm(exe, fails)
+    elif any((f.get("scenario") or {}).get("kind") == "dispatch" for f in fails):
+        r = replay_dispatch(exe, fails)
     elif any((f.get("scenario") or {}).get("kind") == "details" for f in fails):
         r = replay_details(exe, fails)
     elif any((f.get("scenario") or {}).get("kind") == "eval" for f in fails):
